@@ -393,9 +393,12 @@ func c14RunConf(r *vkit.Run, c *c14Conf, fs *fileSet, R int) {
 }
 
 func c14(r *vkit.Run) {
-	r.SetRule("file sets built from a fixed skeleton (2 products, 3 host-tags, exact+wildcard hosts, vips, basic+advanced rules that expose the host-tag in the cluster choice, 6 clusters x 1-3 sub-clusters x 2-4 equal-weight backends, random names/weights) with exactly one hazard injected: " + strings.Join(c14Hazards, ", ") + ". Each file set is loaded R times (q 40 / t 400; a file set already shown order-dependent is abandoned 13 loads later) in this process - LoadServerDataConf + BalTable.Init, followed by 0/1/2 BalTableReload of the same files (load index mod 3); for reload-adds-backends an older cluster_table generation is loaded first. Decision vector = (product, cluster, error?) of ~40 probe requests (host spellings x vip x path) and (sub-cluster, backend) of 8 Balance calls per cluster with fixed client addresses (hash strategy client-ip, no slow start, so no clock or PRNG is involved). Pass = all R vectors equal, or all R loads rejected. Non-trivial = a hazard is present; distinct = file contents." + c14DupRule)
+	r.SetRule("file sets built from a fixed skeleton (2 products, 3 host-tags, exact+wildcard hosts, vips, basic+advanced rules that expose the host-tag in the cluster choice, 6 clusters x 1-3 sub-clusters x 2-4 equal-weight backends, random names/weights) with exactly one hazard injected: " + strings.Join(c14Hazards, ", ") + ". Each file set is loaded R times (q 40 / t 400; a file set already shown order-dependent is abandoned 13 loads later) in this process - LoadServerDataConf + BalTable.Init, followed by 0/1/2 BalTableReload of the same files (load index mod 3); for reload-adds-backends an older cluster_table generation is loaded first. Decision vector = (product, cluster, error?) of ~40 probe requests (host spellings x vip x path) and (sub-cluster, backend) of 8 Balance calls per cluster with fixed client addresses (hash strategy client-ip, no slow start, so no clock or PRNG is involved). Pass = all R vectors equal, or all R loads rejected. Non-trivial = a hazard is present; distinct = file contents." + c14DupRule + " RELOAD-HISTORY MONITOR (harness/balhist): gslb level - a table that reached a gslb configuration through 1-3 reloads must choose the same sub-cluster for 48 clients as a freshly initialised table." + balhist.StickyRule)
 	r.Assume("Go randomises map iteration per range statement, so R in-process loads sample R independent visiting orders; child processes add nothing for these loaders (no package-level state)")
 	if r.Replay != "" {
+		if balhist.ReplaySticky(r, scratchBase()) { // witness of the sticky reload-history family (harness/balhist/sticky.go)
+			return
+		}
 		var dw struct {
 			Case c14DupCase `json:"case"`
 		}
